@@ -74,7 +74,10 @@ func main() {
 			os.Exit(2)
 		}
 		plan := p.Generate(engine.NewPRNG(engine.Mix(seed, uint64(*dump))), *dump, *tier)
-		plan.Format, plan.Property, plan.Seed, plan.Run, plan.Tier, plan.World = 1, p.ID, seed, *dump, *tier, p.World
+		plan.Format, plan.Property, plan.Seed, plan.Run, plan.Tier = 1, p.ID, seed, *dump, *tier
+		if plan.World == "" {
+			plan.World = p.World
+		}
 		b, _ := json.MarshalIndent(plan, "", " ")
 		fmt.Println(string(b))
 	case *replayInproc != "":
